@@ -326,6 +326,48 @@ fn random_case(g: &mut Gen, wmax: i64, hmax: i64) -> Verdict {
     }
 }
 
+/// Consecutive conversions of pictures that differ in a few samples only (successive frames of a
+/// still scene): nothing a call keeps from the one before - a memo keyed on part of the planes, a
+/// reused output buffer - may reach the next result.
+fn sibling_case(g: &mut Gen) -> Verdict {
+    let w = g.range(1, 40) as usize;
+    let h = g.range(1, (900 / w as i64).clamp(1, 30)) as usize;
+    let family = g.below(FAMILIES);
+    let mut src = || g.byte();
+    let (mut y, mut cb, mut cr) = planes(w, h, family, &mut src);
+    let first = (y.clone(), cb.clone(), cr.clone());
+    let steps = g.range(1, 4) as usize;
+    let mut moved: Vec<(u8, usize)> = Vec::new();
+    g.describe(|| json!({"w": w, "h": h, "family": family, "calls": steps + 1, "y_head": &y[..y.len().min(16)]}));
+    if let Err(m) = check_picture(w, &y, &cb, &cr) {
+        return Verdict::fail(format!("call 1: {}", m));
+    }
+    for k in 0..steps {
+        if g.chance(1, 6) {
+            y = first.0.clone();
+            cb = first.1.clone();
+            cr = first.2.clone();
+        } else {
+            for _ in 0..g.range(1, 3) {
+                let which = g.below(4) as u8; // luma (0, 3) twice as often
+                let plane = match which { 0 | 3 => &mut y, 1 => &mut cb, _ => &mut cr };
+                let i = g.range(0, plane.len() as i64 - 1) as usize;
+                let d = if g.bool() { g.range(1, 3) as u8 } else { g.byte() | 1 };
+                plane[i] = plane[i].wrapping_add(d);
+                moved.push((which, i));
+            }
+        }
+        if let Err(m) = check_picture(w, &y, &cb, &cr) {
+            return Verdict::fail(format!("call {} of {} on pictures differing in (plane, sample) {:?}: {}", k + 2, steps + 1, moved, m));
+        }
+    }
+    let mut key = fnv64(&y);
+    key = crate::bits::fnv64_extend(key, &cb);
+    key = crate::bits::fnv64_extend(key, &cr);
+    key ^= (w as u64) << 48;
+    Verdict::pass_l(true, key, vec![if moved.is_empty() { "same picture again" } else { "pictures differing in a few samples" }])
+}
+
 fn empty_suite() -> SuiteReport {
     simple_suite("empty_picture", true, |acc| {
         match guard(|| yuv420_to_rgba(&[], &[], &[], 0)) {
@@ -467,6 +509,7 @@ pub fn run(ctx: &Ctx) -> i32 {
     reports.push(exhaustive_suite(ctx, "same_buffers_other_widths", 576, &move |i, acc| sequence_item(seed, i, acc)));
     let (cases, rw, rh) = ctx.tier.pick((100_000u64, 300i64, 120i64), (1_500_000u64, 700i64, 300i64));
     reports.push(tape_suite(ctx, "random_sizes", cases, 1600, &move |g| random_case(g, rw, rh)));
+    reports.push(tape_suite(ctx, "sibling_pictures", ctx.tier.pick(20_000u64, 300_000u64), 1600, &sibling_case));
     let mut extra = Map::new();
     extra.insert("grid".into(), json!(format!("every (w,h) in 1..={} x 1..={} x 7 content families", wmax, hmax)));
     let exhaustive = false; // the property quantifies over all sizes; only the stated box is complete
@@ -474,7 +517,7 @@ pub fn run(ctx: &Ctx) -> i32 {
         ctx,
         reports,
         Summary {
-            rule: "size_grid enumerates every width x height in the stated box with seven plane-content families (chroma planes that average exactly 128 without being colourless; uniform planes with one to three deviating samples, mostly in the last or first column / row; hash bytes, extremes, per-position-unique pattern, independently structured planes, and planes assembled from a few repeated row templates over one-to-three-value alphabets so that equal neighbouring groups / rows / planes and special values occur all the time); random_sizes draws size and content from the proptest tape. Oracle: per-pixel BT.601 integer model of luma (x,y) with chroma (x/2,y/2), output length 4wh, no panic; empty picture -> empty output. Non-trivial = width not a multiple of 4, or odd height, or width >= 8; distinct by plane contents.",
+            rule: "size_grid enumerates every width x height in the stated box with seven plane-content families (chroma planes that average exactly 128 without being colourless; uniform planes with one to three deviating samples, mostly in the last or first column / row; hash bytes, extremes, per-position-unique pattern, independently structured planes, and planes assembled from a few repeated row templates over one-to-three-value alphabets so that equal neighbouring groups / rows / planes and special values occur all the time); random_sizes draws size and content from the proptest tape; sibling_pictures makes two to five consecutive calls on pictures of one size differing in one to a few samples (or the first picture again), each result compared with the model. Oracle: per-pixel BT.601 integer model of luma (x,y) with chroma (x/2,y/2), output length 4wh, no panic; empty picture -> empty output. Non-trivial = width not a multiple of 4, or odd height, or width >= 8; distinct by plane contents.",
             assumptions: vec!["planes have the documented sizes (chroma ceil(w/2) x ceil(h/2)); other shapes are outside the property".into()],
             exhaustive,
             extra,
@@ -484,6 +527,10 @@ pub fn run(ctx: &Ctx) -> i32 {
 
 pub fn replay(suite: &str, case: &Value) -> Option<Verdict> {
     match suite {
+        "sibling_pictures" => {
+            let tape = super::tape_of(case)?;
+            Some(sibling_case(&mut Gen::new(&tape)))
+        }
         "random_sizes" => {
             let tape = super::tape_of(case)?;
             let mut g = Gen::new(&tape);
